@@ -562,7 +562,6 @@ func (s *transactionStore) Watch(ctx context.Context, ch chan<- configapi.Transa
 					transactions, err := s.getTransactions(ctx, *entry.Value)
 					if err != nil {
 						log.Error(err)
-						close(ch)
 						return
 					}
 
@@ -598,7 +597,6 @@ func (s *transactionStore) Watch(ctx context.Context, ch chan<- configapi.Transa
 			case event := <-eventCh:
 				ch <- event
 			case <-ctx.Done():
-				close(ch)
 				go func() {
 					for range eventCh {
 					}
